@@ -23,11 +23,17 @@ theorem C11_Int8_sub (a b : Int) (ha : inRange (.int 8) a) (hb : inRange (.int 8
     Int8Value.Minus a b = specChecked (.int 8) .sub a b := by
   unfold Int8Value.Minus; num_arith
 
--- NOT YET PROVED: C11_Int8_mul
+theorem C11_Int8_mul (a b : Int) (ha : inRange (.int 8) a) (hb : inRange (.int 8) b) :
+    Int8Value.Mul a b = specChecked (.int 8) .mul a b := by
+  unfold Int8Value.Mul; num_mul a b (127) (-128)
 
--- NOT YET PROVED: C11_Int8_div
+theorem C11_Int8_div (a b : Int) (ha : inRange (.int 8) a) (hb : inRange (.int 8) b) :
+    Int8Value.Div a b = specChecked (.int 8) .div a b := by
+  unfold Int8Value.Div; num_div a b
 
--- NOT YET PROVED: C11_Int8_mod
+theorem C11_Int8_mod (a b : Int) (ha : inRange (.int 8) a) (hb : inRange (.int 8) b) :
+    Int8Value.Mod a b = specChecked (.int 8) .mod a b := by
+  unfold Int8Value.Mod; num_mod a b
 
 theorem C11_Int8_neg (a : Int) (ha : inRange (.int 8) a) :
     Int8Value.Negate a = specNeg (.int 8) a := by
@@ -43,11 +49,17 @@ theorem C11_Int16_sub (a b : Int) (ha : inRange (.int 16) a) (hb : inRange (.int
     Int16Value.Minus a b = specChecked (.int 16) .sub a b := by
   unfold Int16Value.Minus; num_arith
 
--- NOT YET PROVED: C11_Int16_mul
+theorem C11_Int16_mul (a b : Int) (ha : inRange (.int 16) a) (hb : inRange (.int 16) b) :
+    Int16Value.Mul a b = specChecked (.int 16) .mul a b := by
+  unfold Int16Value.Mul; num_mul a b (32767) (-32768)
 
--- NOT YET PROVED: C11_Int16_div
+theorem C11_Int16_div (a b : Int) (ha : inRange (.int 16) a) (hb : inRange (.int 16) b) :
+    Int16Value.Div a b = specChecked (.int 16) .div a b := by
+  unfold Int16Value.Div; num_div a b
 
--- NOT YET PROVED: C11_Int16_mod
+theorem C11_Int16_mod (a b : Int) (ha : inRange (.int 16) a) (hb : inRange (.int 16) b) :
+    Int16Value.Mod a b = specChecked (.int 16) .mod a b := by
+  unfold Int16Value.Mod; num_mod a b
 
 theorem C11_Int16_neg (a : Int) (ha : inRange (.int 16) a) :
     Int16Value.Negate a = specNeg (.int 16) a := by
@@ -63,11 +75,17 @@ theorem C11_Int32_sub (a b : Int) (ha : inRange (.int 32) a) (hb : inRange (.int
     Int32Value.Minus a b = specChecked (.int 32) .sub a b := by
   unfold Int32Value.Minus; num_arith
 
--- NOT YET PROVED: C11_Int32_mul
+theorem C11_Int32_mul (a b : Int) (ha : inRange (.int 32) a) (hb : inRange (.int 32) b) :
+    Int32Value.Mul a b = specChecked (.int 32) .mul a b := by
+  unfold Int32Value.Mul; num_mul a b (2147483647) (-2147483648)
 
--- NOT YET PROVED: C11_Int32_div
+theorem C11_Int32_div (a b : Int) (ha : inRange (.int 32) a) (hb : inRange (.int 32) b) :
+    Int32Value.Div a b = specChecked (.int 32) .div a b := by
+  unfold Int32Value.Div; num_div a b
 
--- NOT YET PROVED: C11_Int32_mod
+theorem C11_Int32_mod (a b : Int) (ha : inRange (.int 32) a) (hb : inRange (.int 32) b) :
+    Int32Value.Mod a b = specChecked (.int 32) .mod a b := by
+  unfold Int32Value.Mod; num_mod a b
 
 theorem C11_Int32_neg (a : Int) (ha : inRange (.int 32) a) :
     Int32Value.Negate a = specNeg (.int 32) a := by
@@ -83,11 +101,17 @@ theorem C11_Int64_sub (a b : Int) (ha : inRange (.int 64) a) (hb : inRange (.int
     Int64Value.Minus a b = specChecked (.int 64) .sub a b := by
   unfold Int64Value.Minus; num_arith
 
--- NOT YET PROVED: C11_Int64_mul
+theorem C11_Int64_mul (a b : Int) (ha : inRange (.int 64) a) (hb : inRange (.int 64) b) :
+    Int64Value.Mul a b = specChecked (.int 64) .mul a b := by
+  unfold Int64Value.Mul; num_mul a b (9223372036854775807) (-9223372036854775808)
 
--- NOT YET PROVED: C11_Int64_div
+theorem C11_Int64_div (a b : Int) (ha : inRange (.int 64) a) (hb : inRange (.int 64) b) :
+    Int64Value.Div a b = specChecked (.int 64) .div a b := by
+  unfold Int64Value.Div; num_div a b
 
--- NOT YET PROVED: C11_Int64_mod
+theorem C11_Int64_mod (a b : Int) (ha : inRange (.int 64) a) (hb : inRange (.int 64) b) :
+    Int64Value.Mod a b = specChecked (.int 64) .mod a b := by
+  unfold Int64Value.Mod; num_mod a b
 
 theorem C11_Int64_neg (a : Int) (ha : inRange (.int 64) a) :
     Int64Value.Negate a = specNeg (.int 64) a := by
@@ -105,11 +129,15 @@ theorem C11_Int128_sub (a b : Int) (ha : inRange (.int 128) a) (hb : inRange (.i
 
 theorem C11_Int128_mul (a b : Int) (ha : inRange (.int 128) a) (hb : inRange (.int 128) b) :
     Int128Value.Mul a b = specChecked (.int 128) .mul a b := by
-  unfold Int128Value.Mul; num_arith
+  unfold Int128Value.Mul; num_mul a b (170141183460469231731687303715884105727) (-170141183460469231731687303715884105728)
 
--- NOT YET PROVED: C11_Int128_div
+theorem C11_Int128_div (a b : Int) (ha : inRange (.int 128) a) (hb : inRange (.int 128) b) :
+    Int128Value.Div a b = specChecked (.int 128) .div a b := by
+  unfold Int128Value.Div; num_div a b
 
--- NOT YET PROVED: C11_Int128_mod
+theorem C11_Int128_mod (a b : Int) (ha : inRange (.int 128) a) (hb : inRange (.int 128) b) :
+    Int128Value.Mod a b = specChecked (.int 128) .mod a b := by
+  unfold Int128Value.Mod; num_mod a b
 
 theorem C11_Int128_neg (a : Int) (ha : inRange (.int 128) a) :
     Int128Value.Negate a = specNeg (.int 128) a := by
@@ -127,11 +155,15 @@ theorem C11_Int256_sub (a b : Int) (ha : inRange (.int 256) a) (hb : inRange (.i
 
 theorem C11_Int256_mul (a b : Int) (ha : inRange (.int 256) a) (hb : inRange (.int 256) b) :
     Int256Value.Mul a b = specChecked (.int 256) .mul a b := by
-  unfold Int256Value.Mul; num_arith
+  unfold Int256Value.Mul; num_mul a b (57896044618658097711785492504343953926634992332820282019728792003956564819967) (-57896044618658097711785492504343953926634992332820282019728792003956564819968)
 
--- NOT YET PROVED: C11_Int256_div
+theorem C11_Int256_div (a b : Int) (ha : inRange (.int 256) a) (hb : inRange (.int 256) b) :
+    Int256Value.Div a b = specChecked (.int 256) .div a b := by
+  unfold Int256Value.Div; num_div a b
 
--- NOT YET PROVED: C11_Int256_mod
+theorem C11_Int256_mod (a b : Int) (ha : inRange (.int 256) a) (hb : inRange (.int 256) b) :
+    Int256Value.Mod a b = specChecked (.int 256) .mod a b := by
+  unfold Int256Value.Mod; num_mod a b
 
 theorem C11_Int256_neg (a : Int) (ha : inRange (.int 256) a) :
     Int256Value.Negate a = specNeg (.int 256) a := by
@@ -147,11 +179,17 @@ theorem C11_UInt8_sub (a b : Int) (ha : inRange (.uint 8) a) (hb : inRange (.uin
     UInt8Value.Minus a b = specChecked (.uint 8) .sub a b := by
   unfold UInt8Value.Minus; num_arith
 
--- NOT YET PROVED: C11_UInt8_mul
+theorem C11_UInt8_mul (a b : Int) (ha : inRange (.uint 8) a) (hb : inRange (.uint 8) b) :
+    UInt8Value.Mul a b = specChecked (.uint 8) .mul a b := by
+  unfold UInt8Value.Mul; num_mul a b (255) (0)
 
--- NOT YET PROVED: C11_UInt8_div
+theorem C11_UInt8_div (a b : Int) (ha : inRange (.uint 8) a) (hb : inRange (.uint 8) b) :
+    UInt8Value.Div a b = specChecked (.uint 8) .div a b := by
+  unfold UInt8Value.Div; num_div a b
 
--- NOT YET PROVED: C11_UInt8_mod
+theorem C11_UInt8_mod (a b : Int) (ha : inRange (.uint 8) a) (hb : inRange (.uint 8) b) :
+    UInt8Value.Mod a b = specChecked (.uint 8) .mod a b := by
+  unfold UInt8Value.Mod; num_mod a b
 
 /-! ### UInt16 -/
 
@@ -163,11 +201,17 @@ theorem C11_UInt16_sub (a b : Int) (ha : inRange (.uint 16) a) (hb : inRange (.u
     UInt16Value.Minus a b = specChecked (.uint 16) .sub a b := by
   unfold UInt16Value.Minus; num_arith
 
--- NOT YET PROVED: C11_UInt16_mul
+theorem C11_UInt16_mul (a b : Int) (ha : inRange (.uint 16) a) (hb : inRange (.uint 16) b) :
+    UInt16Value.Mul a b = specChecked (.uint 16) .mul a b := by
+  unfold UInt16Value.Mul; num_mul a b (65535) (0)
 
--- NOT YET PROVED: C11_UInt16_div
+theorem C11_UInt16_div (a b : Int) (ha : inRange (.uint 16) a) (hb : inRange (.uint 16) b) :
+    UInt16Value.Div a b = specChecked (.uint 16) .div a b := by
+  unfold UInt16Value.Div; num_div a b
 
--- NOT YET PROVED: C11_UInt16_mod
+theorem C11_UInt16_mod (a b : Int) (ha : inRange (.uint 16) a) (hb : inRange (.uint 16) b) :
+    UInt16Value.Mod a b = specChecked (.uint 16) .mod a b := by
+  unfold UInt16Value.Mod; num_mod a b
 
 /-! ### UInt32 -/
 
@@ -179,11 +223,17 @@ theorem C11_UInt32_sub (a b : Int) (ha : inRange (.uint 32) a) (hb : inRange (.u
     UInt32Value.Minus a b = specChecked (.uint 32) .sub a b := by
   unfold UInt32Value.Minus; num_arith
 
--- NOT YET PROVED: C11_UInt32_mul
+theorem C11_UInt32_mul (a b : Int) (ha : inRange (.uint 32) a) (hb : inRange (.uint 32) b) :
+    UInt32Value.Mul a b = specChecked (.uint 32) .mul a b := by
+  unfold UInt32Value.Mul; num_mul a b (4294967295) (0)
 
--- NOT YET PROVED: C11_UInt32_div
+theorem C11_UInt32_div (a b : Int) (ha : inRange (.uint 32) a) (hb : inRange (.uint 32) b) :
+    UInt32Value.Div a b = specChecked (.uint 32) .div a b := by
+  unfold UInt32Value.Div; num_div a b
 
--- NOT YET PROVED: C11_UInt32_mod
+theorem C11_UInt32_mod (a b : Int) (ha : inRange (.uint 32) a) (hb : inRange (.uint 32) b) :
+    UInt32Value.Mod a b = specChecked (.uint 32) .mod a b := by
+  unfold UInt32Value.Mod; num_mod a b
 
 /-! ### UInt64 -/
 
@@ -195,11 +245,17 @@ theorem C11_UInt64_sub (a b : Int) (ha : inRange (.uint 64) a) (hb : inRange (.u
     UInt64Value.Minus a b = specChecked (.uint 64) .sub a b := by
   unfold UInt64Value.Minus; num_arith
 
--- NOT YET PROVED: C11_UInt64_mul
+theorem C11_UInt64_mul (a b : Int) (ha : inRange (.uint 64) a) (hb : inRange (.uint 64) b) :
+    UInt64Value.Mul a b = specChecked (.uint 64) .mul a b := by
+  unfold UInt64Value.Mul; num_mul a b (18446744073709551615) (0)
 
--- NOT YET PROVED: C11_UInt64_div
+theorem C11_UInt64_div (a b : Int) (ha : inRange (.uint 64) a) (hb : inRange (.uint 64) b) :
+    UInt64Value.Div a b = specChecked (.uint 64) .div a b := by
+  unfold UInt64Value.Div; num_div a b
 
--- NOT YET PROVED: C11_UInt64_mod
+theorem C11_UInt64_mod (a b : Int) (ha : inRange (.uint 64) a) (hb : inRange (.uint 64) b) :
+    UInt64Value.Mod a b = specChecked (.uint 64) .mod a b := by
+  unfold UInt64Value.Mod; num_mod a b
 
 /-! ### UInt128 -/
 
@@ -211,11 +267,17 @@ theorem C11_UInt128_sub (a b : Int) (ha : inRange (.uint 128) a) (hb : inRange (
     UInt128Value.Minus a b = specChecked (.uint 128) .sub a b := by
   unfold UInt128Value.Minus; num_arith
 
--- NOT YET PROVED: C11_UInt128_mul
+theorem C11_UInt128_mul (a b : Int) (ha : inRange (.uint 128) a) (hb : inRange (.uint 128) b) :
+    UInt128Value.Mul a b = specChecked (.uint 128) .mul a b := by
+  unfold UInt128Value.Mul; num_mul a b (340282366920938463463374607431768211455) (0)
 
--- NOT YET PROVED: C11_UInt128_div
+theorem C11_UInt128_div (a b : Int) (ha : inRange (.uint 128) a) (hb : inRange (.uint 128) b) :
+    UInt128Value.Div a b = specChecked (.uint 128) .div a b := by
+  unfold UInt128Value.Div; num_div a b
 
--- NOT YET PROVED: C11_UInt128_mod
+theorem C11_UInt128_mod (a b : Int) (ha : inRange (.uint 128) a) (hb : inRange (.uint 128) b) :
+    UInt128Value.Mod a b = specChecked (.uint 128) .mod a b := by
+  unfold UInt128Value.Mod; num_mod a b
 
 /-! ### UInt256 -/
 
@@ -227,11 +289,17 @@ theorem C11_UInt256_sub (a b : Int) (ha : inRange (.uint 256) a) (hb : inRange (
     UInt256Value.Minus a b = specChecked (.uint 256) .sub a b := by
   unfold UInt256Value.Minus; num_arith
 
--- NOT YET PROVED: C11_UInt256_mul
+theorem C11_UInt256_mul (a b : Int) (ha : inRange (.uint 256) a) (hb : inRange (.uint 256) b) :
+    UInt256Value.Mul a b = specChecked (.uint 256) .mul a b := by
+  unfold UInt256Value.Mul; num_mul a b (115792089237316195423570985008687907853269984665640564039457584007913129639935) (0)
 
--- NOT YET PROVED: C11_UInt256_div
+theorem C11_UInt256_div (a b : Int) (ha : inRange (.uint 256) a) (hb : inRange (.uint 256) b) :
+    UInt256Value.Div a b = specChecked (.uint 256) .div a b := by
+  unfold UInt256Value.Div; num_div a b
 
--- NOT YET PROVED: C11_UInt256_mod
+theorem C11_UInt256_mod (a b : Int) (ha : inRange (.uint 256) a) (hb : inRange (.uint 256) b) :
+    UInt256Value.Mod a b = specChecked (.uint 256) .mod a b := by
+  unfold UInt256Value.Mod; num_mod a b
 
 /-! ### Int -/
 
@@ -245,15 +313,15 @@ theorem C11_Int_sub (a b : Int) (ha : inRange .bigInt a) (hb : inRange .bigInt b
 
 theorem C11_Int_mul (a b : Int) (ha : inRange .bigInt a) (hb : inRange .bigInt b) :
     IntValue.Mul a b = specChecked .bigInt .mul a b := by
-  unfold IntValue.Mul; num_arith
+  unfold IntValue.Mul; num_mul a b (0) (0)
 
 theorem C11_Int_div (a b : Int) (ha : inRange .bigInt a) (hb : inRange .bigInt b) :
     IntValue.Div a b = specChecked .bigInt .div a b := by
-  unfold IntValue.Div; num_arith
+  unfold IntValue.Div; num_div a b
 
 theorem C11_Int_mod (a b : Int) (ha : inRange .bigInt a) (hb : inRange .bigInt b) :
     IntValue.Mod a b = specChecked .bigInt .mod a b := by
-  unfold IntValue.Mod; num_arith
+  unfold IntValue.Mod; num_mod a b
 
 theorem C11_Int_neg (a : Int) (ha : inRange .bigInt a) :
     IntValue.Negate a = specNeg .bigInt a := by
@@ -269,11 +337,17 @@ theorem C11_UInt_sub (a b : Int) (ha : inRange .bigUInt a) (hb : inRange .bigUIn
     UIntValue.Minus a b = specChecked .bigUInt .sub a b := by
   unfold UIntValue.Minus; num_arith
 
--- NOT YET PROVED: C11_UInt_mul
+theorem C11_UInt_mul (a b : Int) (ha : inRange .bigUInt a) (hb : inRange .bigUInt b) :
+    UIntValue.Mul a b = specChecked .bigUInt .mul a b := by
+  unfold UIntValue.Mul; num_mul a b (0) (0)
 
--- NOT YET PROVED: C11_UInt_div
+theorem C11_UInt_div (a b : Int) (ha : inRange .bigUInt a) (hb : inRange .bigUInt b) :
+    UIntValue.Div a b = specChecked .bigUInt .div a b := by
+  unfold UIntValue.Div; num_div a b
 
--- NOT YET PROVED: C11_UInt_mod
+theorem C11_UInt_mod (a b : Int) (ha : inRange .bigUInt a) (hb : inRange .bigUInt b) :
+    UIntValue.Mod a b = specChecked .bigUInt .mod a b := by
+  unfold UIntValue.Mod; num_mod a b
 
 /-! ### Non-vacuity: the hypotheses are satisfiable and every branch of the spec is reached -/
 
